@@ -86,4 +86,18 @@ CLAIMED.update({
         technique="TLC-exported tables + exhaustive sweep of the real classification functions; TLC trace validation of sampled observations",
         ref="DESIGN.md section 4 C08"),
 })
+CLAIMED.update({
+    "C17": dict(
+        text=("Ports.tla specifies the lifecycle (open/listen/send/stop/close, start failure, concurrent senders) for both drivers; TLC checks its invariants. "
+              "testdrv: EVERY protocol-respecting call history up to length 7 (quick) / 9 (thorough) is taken from TLC's state graph and executed on a fresh real port pair, "
+              "return value and deliveries compared after every call. midicatdrv: a PlusCal model of the concurrent in port (client, reader and control goroutines, RWMutex "
+              "with writer preference, capacity-1 channels, helper process, start failure) is model-checked for deadlock freedom, no-callback-after-stop and lock discipline "
+              "(with a regression config of the pre-fix start-failure path that must deadlock); the real driver runs seeded random histories incl. 2-4 concurrent senders and "
+              "start failures against a stand-in helper pair (two real child processes joined by a datagram socket), built with -race, every call under a 10 s watchdog, and "
+              "TLC judges each recorded history with Ports!PStep / ParOk."),
+        note=("Data-race freedom is observed by the Go race detector during the recorded runs (not a TLA+ notion). The PlusCal model is bound to the code at the level of "
+              "call returns and callbacks (black box) only; the verif-tagged hook is used to wait for quiescence. Helper processes dying by themselves are out of scope."),
+        technique="TLA+/PlusCal lifecycle + concurrency model checked by TLC; state-graph history walk (testdrv); TLC trace validation of recorded histories (midicatdrv under -race)",
+        ref="DESIGN.md section 4 C17"),
+})
 NOT_YET = {}
